@@ -9,7 +9,13 @@ Enumerated on the real code (this file + harness/wal.go + Driver/Wal.lean): oper
 segment images compared byte for byte with the model writer; every subset of reverted unsynced tail sectors (<= 6 sectors, random
 beyond) and single-byte corruptions {0x00, low bit flipped, 0xff} at the enumerated offsets -> OpenForRead+ReadAll, Verify,
 Open+ReadAll, Repair+reopen on the real code, compared with the model's verdict on the same mutilated image, and checked directly
-against the property's oracle (synced records all there / unmodified prefix or error / repairable)."""
+against the property's oracle (synced records all there / unmodified prefix or error / repairable).
+
+Recorded findings (known_findings.txt; each has a deterministic repro that prints KNOWN-FINDING while it still fails): wal/corrupt/type-byte (the
+CRC does not cover a record's type byte; model counterpart C16.C16_statement_false) and wal/torn-save/snapshot-with-entries (harness/tornsave.go:
+a Ready carrying a snapshot AND entries whose wal.Save is cut between the entry record and the hard-state record leaves directories on which the
+real restart path dies with ErrSliceOutOfRange on every start; model counterpart ReadyLoop.C08Ready.snapshot_with_entries_strands; the control
+directory with the hard-state record must restart, any other failure is a violation)."""
 import collections
 import os
 import random
@@ -18,6 +24,7 @@ from .. import core
 
 LEVEL = "proof"
 KNOWN_SIG = "wal/corrupt/type-byte"
+TORN_SIG = "wal/torn-save/snapshot-with-entries"
 
 
 STALE_SCENARIO = ["WC 4096 nil", "WS 1 1 0 6 0 1 1 nil 0 1 2 nil 0 1 3 nil 0 1 4 nil 0 1 5 nil 0 1 6 nil", "WS 2 2 2 2 0 2 3 nil 0 2 4 nil",
@@ -150,6 +157,70 @@ def plan(R):
     return lines
 
 
+def torn_save_finding(R, binary, known):
+    """the deterministic repro of TORN_SIG (harness/tornsave.go: directories built with the real wal/snap packages, the real restart path
+    raftexample.NewRaftNode in a child process).  The torn image failing with ErrSliceOutOfRange is the recorded finding; the control image not
+    restarting, the torn image failing in ANY other way, or the construction not being byte-identical to the zeroed full Save are violations."""
+    import json
+    import subprocess
+    reps = {}
+    with core.Workdir() as wd:
+        try:
+            p = subprocess.run([binary, "tornsave", wd], stdout=subprocess.PIPE, stderr=subprocess.PIPE, env=core.goenv(), timeout=240)
+            for l in p.stdout.decode("utf-8", "replace").split("\n"):
+                if l.startswith("{"):
+                    try:
+                        r = json.loads(l)
+                        reps[r.get("case")] = r
+                    except ValueError:
+                        pass
+            tail = p.stderr.decode("utf-8", "replace")[-400:]
+        except subprocess.TimeoutExpired:
+            tail = "timeout"
+    R.suites.append(dict(name="tornsave", cases={k: dict(exit=v.get("exit"), started=v.get("started"), log=(v.get("log_tail") or [])[-1:])
+                                                   for k, v in reps.items()}))
+    ran = all(c in reps and reps[c].get("built") for c in ("torn", "zeroed", "control"))
+    R.oblige("tornsave: the three directories (torn, zeroed, control) were built with the real wal/snap packages and a child process ran the real "
+             "restart path on each", "run", ran, "" if ran else ("cases: %s %s" % ({k: v.get("error") for k, v in reps.items()}, tail)))
+    if not ran:
+        R.violation("tornsave-run", dict(kind="tie-broken", engine="tornsave", summary="the tornsave repro did not run: %s %s" % (reps, tail)),
+                    found_input=False)
+        return
+    ctl, torn, zer = reps["control"], reps["torn"], reps["zeroed"]
+    ctl_ok = ctl.get("exit") == 0 and ctl.get("started")
+    R.oblige("tornsave control: the same directories WITH the hard-state record restart (snapshot 10 loaded, entry 11 read)", "oracle", ctl_ok,
+             " | ".join((ctl.get("log_tail") or [])[-2:])[:300])
+    if not ctl_ok:
+        R.violation("tornsave-control", dict(kind="impl-violates-spec", engine="tornsave", report=ctl,
+                                             summary="a node whose Ready{Snapshot 10, Entries [11], HardState commit 11} was saved COMPLETELY does not restart: "
+                                                     + " | ".join(ctl.get("log_tail") or [])[:600],
+                                             explanation="nothing is torn here: a fully persisted snapshot + entries + hard state must be recoverable"))
+    same = zer.get("identical_to_torn") is True and zer.get("exit") == torn.get("exit") and zer.get("started") == torn.get("started")
+    R.oblige("tornsave construction: Save(empty hard state, [entry 11]) leaves byte for byte the file of the full Save with its hard-state record "
+             "zeroed, and both restart alike", "control", same, "identical=%s exits %s/%s" % (zer.get("identical_to_torn"), torn.get("exit"), zer.get("exit")))
+    if not same:
+        R.violation("tornsave-construction", dict(kind="tie-broken", engine="tornsave", summary="the torn image is not what a cut full Save leaves: %s vs %s"
+                                                  % (torn, zer)), found_input=False)
+    log = " | ".join(torn.get("log_tail") or [])
+    if torn.get("exit") == 0 and torn.get("started"):
+        R.oblige("tornsave: a Ready{Snapshot, Entries, HardState} whose wal.Save is cut between the entry and the hard-state record restarts", "oracle", True, log[:300])
+        if TORN_SIG in known:
+            R.extra["known_finding_note_torn_save"] = "the torn-save signature no longer reproduces"
+        return
+    is_sig = (not torn.get("timed_out")) and torn.get("exit") == 1 and "slice bounds out of range" in log and "failed to read WAL" in log
+    if is_sig and TORN_SIG in known:
+        R.known("sig=%s %s :: observed: child restart exit=%s %s" % (TORN_SIG, known[TORN_SIG][:500], torn.get("exit"), log[-300:]))
+        R.oblige("known finding %s reproduced by its deterministic scenario (recorded, not a pass)" % TORN_SIG, "known-finding", True, log[-300:])
+        return
+    R.oblige("tornsave: a Ready{Snapshot, Entries, HardState} whose wal.Save is cut between the entry and the hard-state record restarts", "oracle", False, log[:300])
+    R.violation("tornsave-restart", dict(
+        kind="impl-violates-spec", engine="tornsave", report=torn,
+        summary="after a crash that left a PREFIX of the unsynced wal.Save of a Ready{Snapshot 10, Entries [11], HardState commit 11} (entry record on disk, "
+                "hard-state record lost) the node does not start: exit=%s timed_out=%s :: %s" % (torn.get("exit"), torn.get("timed_out"), log[:800]),
+        explanation="C16: a torn tail of unsynced records must be recoverable rather than fatal"
+                    + ("" if is_sig else " (this is NOT the recorded signature %s: another failure)" % TORN_SIG)))
+
+
 def run(R, ctx):
     R.rule = ("one evaluation = one mutilated directory handed to the real code (OpenForRead+ReadAll, Verify, Open+ReadAll, and Repair+reopen "
               "when the write-mode error is io.ErrUnexpectedEOF; for long tails and every 8th torn case also the aftermath: reopen for writing, save and "
@@ -174,6 +245,7 @@ def run(R, ctx):
     d = core.run_driver(obs)
     core.negative_control(R, obs, "wal", skip=lambda l: l[:2] not in ("WT", "WB", "WK", "SB"))
     known = core.load_known().get("C16", {})
+    torn_save_finding(R, binary, known)
     # ---- statistics for the evidence
     ops = [l for l in obs if l[:2] in ("WC", "WS", "WN", "WX")]
     cases = [l for l in obs if l[:2] in ("WT", "WB", "WK", "SB")]
@@ -297,6 +369,19 @@ def replay(R, payload):
     if binary is None:
         print("harness does not build:", err)
         return 1
+    if payload.get("engine") == "tornsave":
+        import json
+        import subprocess
+        with core.Workdir() as wd:
+            p = subprocess.run([binary, "tornsave", wd], stdout=subprocess.PIPE, stderr=subprocess.PIPE, env=core.goenv(), timeout=240)
+        reps = {}
+        for l in p.stdout.decode("utf-8", "replace").split("\n"):
+            if l.startswith("{"):
+                print(l[:900])
+                reps[json.loads(l).get("case")] = json.loads(l)
+        bad = not all(reps.get(c, {}).get("exit") == 0 and reps.get(c, {}).get("started") for c in ("torn", "control"))
+        print("replay: %s" % ("still failing" if bad else "no longer failing"))
+        return 1 if bad else 0
     lines = payload.get("lines") or []
     if not lines:
         print(payload.get("summary", "no input recorded (proof/tie broken without a failing input)"))
